@@ -4,7 +4,7 @@
    of read_pkgs ([read_pkgs_now]).  [read_pkgs_fixed] is a second model: the repaired sweep proposed
    in docs/C07.md.  Definitions only.  Any Python exception = None.
    Bytes are Z in 0..255; times/measures/bpm are exact rationals (a float32 widens exactly). *)
-From Coq Require Import ZArith QArith List Bool.
+From Coq Require Import ZArith QArith Qround List Bool.
 From RV Require Import Base.PyNum Base.Bytes Generated.Tables.
 Import ListNotations.
 Open Scope Q_scope.
@@ -415,12 +415,22 @@ Fixpoint tail_fixed (rest : list (Q * Q)) (s : sweep) : option sweep :=
       end
   end.
 
+(* note.length = note_measure_dict[tail] - note.offset  goes through the item_props setter:
+   an O2JHold is created from ints (length=-1, offset=0), so its pandas Series is int64; assigning an
+   integral float offset keeps it int64, note.offset then comes back as numpy.int64, the difference is a
+   numpy.float64, and the setter does  val.astype(int64): the length is TRUNCATED toward zero.  With a
+   non-integral head offset the Series has become float64 and nothing is lost.  [trunc = true] models
+   this; [trunc = false] is the repaired behaviour (docs/C07.md). *)
+Definition is_integral (q : Q) : bool := Qeq_bool q (inject_Z (Qfloor q)).
+Definition hold_length (trunc : bool) (o t : Q) : Q :=
+  if trunc && is_integral o then inject_Z (qtrunc (t - o)) else Qred (t - o).
+
 (* assigning offsets to notes; KeyError is impossible by construction but kept as failure *)
-Fixpoint assign_notes (dict : list (Q * Q)) (notes : list ev) : option (list hitrow * list holdrow) :=
+Fixpoint assign_notes (trunc : bool) (dict : list (Q * Q)) (notes : list ev) : option (list hitrow * list holdrow) :=
   match notes with
   | [] => Some ([], [])
   | e :: r =>
-      match assign_notes dict r with
+      match assign_notes trunc dict r with
       | None => None
       | Some (hs, ls) =>
           match e with
@@ -431,7 +441,7 @@ Fixpoint assign_notes (dict : list (Q * Q)) (notes : list ev) : option (list hit
               end
           | EHold m tm col vol pan =>
               match dict_get dict m, dict_get dict tm with
-              | Some o, Some t => Some (hs, mkHold col o (Qred (t - o)) vol pan :: ls)
+              | Some o, Some t => Some (hs, mkHold col o (hold_length trunc o t) vol pan :: ls)
               | _, _ => None
               end
           | _ => Some (hs, ls)
@@ -449,7 +459,7 @@ Fixpoint bpm_rows (bpms : list (Q * Q)) (offs : list Q) : list bpmrow :=
       end
   end.
 
-Definition read_pkgs_with (fixed : bool) (pkgs : list (list ev)) (init_bpm : Q) : option omap :=
+Definition read_pkgs_with (fixed trunc : bool) (pkgs : list (list ev)) (init_bpm : Q) : option omap :=
   let events := concat pkgs in
   if existsb (fun e => match e with EMeasureChange => true | _ => false end) events
   then None  (* events.sort(key=lambda x: x.measure): AttributeError *)
@@ -471,29 +481,29 @@ Definition read_pkgs_with (fixed : bool) (pkgs : list (list ev)) (init_bpm : Q) 
     match swept with
     | None => None
     | Some (s, dict) =>
-        match assign_notes dict notes with
+        match assign_notes trunc dict notes with
         | None => None
         | Some (hs, ls) => Some (mkOMap hs ls (mkBpm 0 init_bpm :: bpm_rows bpms (sw_done s)))
         end
     end.
 
-Definition read_pkgs_now := read_pkgs_with false.
-Definition read_pkgs_fixed := read_pkgs_with true.
+Definition read_pkgs_now := read_pkgs_with false true.      (* the pinned tree *)
+Definition read_pkgs_fixed := read_pkgs_with true false.    (* repaired sweep and repaired length *)
 
 (* ------------------------------------------------------------------ O2JMapSet.read *)
-Definition read_with (fixed : bool) (b : list Z) : option oset :=
+Definition read_with (fixed trunc : bool) (b : list Z) : option oset :=
   match read_meta (firstn 300 b) with
   | None => None
   | Some h =>
       match read_levels (oh_package_count h) (skipn 300 b) [] with
       | None => None
       | Some lvls =>
-          match all_some (map (fun pk => read_pkgs_with fixed pk (oh_bpm h)) lvls) with
+          match all_some (map (fun pk => read_pkgs_with fixed trunc pk (oh_bpm h)) lvls) with
           | None => None
           | Some ms => Some (mkOSet h ms)
           end
       end
   end.
 
-Definition read_now := read_with false.
-Definition read_fixed := read_with true.
+Definition read_now := read_with false true.
+Definition read_fixed := read_with true false.
